@@ -18,7 +18,7 @@ C02_ARITH = [
 PROPS = {
     "C01": {
         "title": "Integer arithmetic is exact at every magnitude",
-        "v_units": ["arith"], "ob_filter": {"arith": C01_ARITH},
+        "v_units": ["arith", "gcd"], "ob_filter": {"arith": C01_ARITH},
         "k_groups": ["fixnum_repr", "shl_kernel"],
         "replay": "arith",
         "level": "proof",
